@@ -239,7 +239,7 @@ func c20RunSet(c *Ctx, st *c20Stats, p0 []v2.Vec, meta c20Meta, key string, slow
 //-----------------------------------------------------------------------------
 // generators (unit coordinates; scaled and offset afterwards)
 
-var c20Dists = []string{"uniform", "clustered", "grid", "hullchain", "cocircular", "rows"}
+var c20Dists = []string{"uniform", "clustered", "grid", "hullchain", "cocircular", "rows", "closepairs"}
 
 func c20GenUnit(r *Rng, n int, dist string) []v2.Vec {
 	p := make([]v2.Vec, 0, n)
@@ -274,6 +274,16 @@ func c20GenUnit(r *Rng, n int, dist string) []v2.Vec {
 		cells := r.Perm(m * m)[:n]
 		for _, cidx := range cells {
 			p = append(p, v2.Vec{X: (float64(cidx%m) + 0.5 + jit*r.R(-0.5, 0.5)) / float64(m), Y: (float64(cidx/m) + 0.5 + jit*r.R(-0.5, 0.5)) / float64(m)})
+		}
+	case "closepairs": // uniform points, a third of them with a companion a few 1e-5 of the extent away in a random direction
+		for len(p) < n {
+			q := v2.Vec{X: r.F(), Y: r.F()}
+			p = append(p, q)
+			if len(p) < n && r.P(0.5) {
+				s, cs := math.Sincos(r.R(0, 2*math.Pi))
+				d := r.LogR(1.5e-5, 2e-4)
+				p = append(p, v2.Vec{X: q.X + d*cs, Y: q.Y + d*s})
+			}
 		}
 	case "rows": // pairs of points share exactly the same y (no three collinear): equal coordinates are general position too
 		for i := 0; i < n; i += 2 {
@@ -374,6 +384,8 @@ func c20GenSet(r *Rng, n int, dist string, sc, oc int) (pts []v2.Vec, scale, off
 			off = r.R(0, 1)
 		case 2:
 			off = r.R(1, 10)
+		case 3:
+			off = r.LogR(1e3, 1e6)
 		}
 		ext := c20Extent(u) * scale
 		s, cs := math.Sincos(r.R(0, 2*math.Pi))
@@ -427,6 +439,9 @@ func c20Case(c *Ctx, i int) (pts []v2.Vec, meta c20Meta, sc, oc int) {
 		n = min(n, 60)
 	}
 	sc, oc = c20PickScaleClass(r), r.I(3)
+	if (dist == "closepairs" || dist == "uniform") && r.P(0.4) {
+		oc = 3 // far from the origin relative to the spacing of the points
+	}
 	pts, scale, off := c20GenSet(r, n, dist, sc, oc)
 	return pts, c20Meta{Stream: "set", Index: i, Dist: dist, N: n, Scale: scale, Offset: off}, sc, oc
 }
@@ -499,7 +514,7 @@ func checkC20(c *Ctx) {
 	c20Equals(c)
 	c20Pinned(c)
 
-	nSets := c.Pick(3000, 300000)
+	nSets := c.Pick(24000, 300000)
 	st := &c20Stats{minMu: math.Inf(1), minR: math.Inf(1), byDist: map[string]int{}, byN: map[string]int{}, byDomain: map[string]int{}}
 	parallelFor(nSets, func(i int) {
 		pts, meta, sc, oc := c20Case(c, i)
